@@ -2,10 +2,12 @@
 use crate::runner::PropertyDef;
 
 pub mod c08;
+pub mod c09;
 
 pub fn get(id: &str) -> Option<PropertyDef> {
     match id {
         "C08" => Some(c08::def()),
+        "C09" => Some(c09::def()),
         _ => None,
     }
 }
